@@ -46,7 +46,20 @@ def build_demo(demo, tag):
     return exe, ""
 
 
+def run_py_demo(demo):
+    """a demonstration written against the Python API: run on lane P (the repository's package on the akext stand-in)"""
+    code = ("import sys; sys.path.insert(0, %r); from vlib import lanep; lanep.load('plain'); "
+            "import runpy; runpy.run_path(%r, run_name='__main__')" % (HERE, demo))
+    try:
+        p = sh(["/venv/bin/python", "-c", code], timeout=600, cwd="/tmp")
+        return {"built": True, "exit": p.returncode, "tail": p.stdout.decode(errors="replace")[-800:]}
+    except subprocess.TimeoutExpired:
+        return {"built": True, "exit": "timeout", "tail": ""}
+
+
 def run_demo(demo, tag):
+    if demo.endswith(".py"):
+        return run_py_demo(demo)
     exe, err = build_demo(demo, tag)
     if exe is None:
         return {"built": False, "error": err}
